@@ -121,7 +121,13 @@ fn judge_value(ctx: &mut Ctx, case: &Case, what: &str, r: Result<BigDecimal, Str
             let g = Dec::of(&v);
             let ok = if exact_repr { g == *want } else { model::eq_dec(&g, want) };
             let sig = format!("{}/wrong", what.split(' ').next().unwrap_or(what));
-            ctx.check(ok, &sig, case, || format!("`{}`: got {} want {}{}", what, g.tok(), want.tok(), if exact_repr { " (exact representation: input has at most p digits)" } else { "" }));
+            let held = ctx.check(ok, &sig, case, || format!("`{}`: got {} want {}{}", what, g.tok(), want.tok(), if exact_repr { " (exact representation: input has at most p digits)" } else { "" }));
+            if what == "with_precision_round" && ctx.want_event() && case.kind() == "round" && case.arg(0).len() < 500 {
+                let p: u64 = case.arg(1).parse().unwrap_or(1);
+                // (the exact-representation clause is not part of the second opinion: value only)
+                let held_value = held || model::eq_dec(&g, want);
+                ctx.log("round_prec", &[case.arg(0).to_string()], serde_json::json!({"p": p, "mode": case.arg(2)}), g.tok(), held_value);
+            }
         }
     }
 }
